@@ -1,15 +1,8 @@
 #!/bin/bash
-# Offline setup: verifies the toolchain the checks need; creates the CrossHair overlay venv used by C03.
+# Offline setup: verifies the toolchain the checks need (the repository's own interpreter with z3 and claripy from /repo).
+# Nothing is installed: every engine is part of /verif (pysym, harness) and runs on /venv/bin/python.
 set -e
 cd "$(dirname "$0")"
 /venv/bin/python -c "import z3, sys; sys.path.insert(0, '/repo'); import claripy; print('z3', z3.get_version_string(), 'claripy', claripy.__file__)"
-if [ ! -x .venv/bin/crosshair ]; then
-  /venv/bin/python -m venv .venv >/dev/null 2>&1 || true
-  if [ -x .venv/bin/python ]; then
-    SP=$(.venv/bin/python -c "import site; print(site.getsitepackages()[0])")
-    printf '/venv/lib/python3.12/site-packages\n/repo\n' > "$SP/verif_overlay.pth"
-    PIP_NO_INDEX=1 .venv/bin/python -m pip install -q --no-index --find-links /opt/veriftools/wheels crosshair-tool >/dev/null 2>&1 || echo "note: crosshair overlay not installed (C03 leg 1 will report inconclusive)"
-  fi
-fi
 mkdir -p evidence replays
 echo setup ok
